@@ -117,6 +117,22 @@ def oracle_lifecycle(d):
     return p
 
 
+def oracle_napdrop(d):
+    """C04: the last handle goes away while an accepted reply-less call is suspended at an await point and others are queued behind it"""
+    if "error" in d:
+        return ["harness: " + d["error"]]
+    p = []
+    want = ["nap:start:0:0", "nap:end:0:0"] + ["tick:0:%d" % i for i in range(d["queued"])] + ["drop"]
+    if d["log"] != want:
+        p.append("C04: the last handle was dropped while an accepted call was suspended inside the user's async method (%d more queued): the accepted calls did not all "
+                 "run to completion before the single drop: log %s, expected %s" % (d["queued"], d["log"], want))
+    if d["drops"] != 1 or not d["dropped_in_time"]:
+        p.append("C04: actor value dropped %d times (in time: %s)" % (d["drops"], d["dropped_in_time"]))
+    if d["ctor_runs"] != 1:
+        p.append("C04: constructor ran %d times" % d["ctor_runs"])
+    return p
+
+
 def oracle_fault(d, known_hang_libs=()):
     """C20. Returns (problems, known) where known lists occurrences of the recorded async-channel finding."""
     if "error" in d:
@@ -155,6 +171,14 @@ def oracle_consume(d):
     p = []
     h = d["handles"]
     pend = d.get("pending", 0)
+    if d.get("dead"):
+        # C20: the actor died before the consuming call: the call must fail loudly, it can neither run the method nor make up a refusal
+        if d["fin_outcome"] != "panicked" or not closed_msg(d.get("fin_msg")):
+            p.append("C20: a self-consuming call on a dead actor gave %s/%s (%s): expected a panic reporting the closed channel, nothing ran and nothing may be returned"
+                     % (d["fin_outcome"], d["result"], d.get("fin_msg")))
+        if any(x.startswith("fin:") for x in d["log_after"]):
+            p.append("C20: the consuming method ran although the actor was dead: %s" % d["log_after"])
+        return p
     if h == 1 and pend:
         # the consuming call was issued while `pend` calls were still queued behind a parked actor: all of them are applied
         # first, then the actor is handed over exactly once with the state those calls produced
